@@ -21,6 +21,7 @@ pub struct DocGen {
 }
 
 const WORDS: &[&str] = &[
+    "\u{fc}ber", "na\u{ef}ve", "\u{6f22}\u{5b57}", "caf\u{e9}", "\u{1f600}", "\u{3b1}\u{3b2}",
     "lorem", "ipsum", "dolor", "sit", "amet", "consectetur", "adipiscing", "elit", "sed", "do",
     "eiusmod", "tempor", "incididunt", "ut", "labore", "et", "dolore", "magna", "aliqua", "enim",
     "minim", "veniam", "quis", "nostrud", "the", "a", "of", "formatter", "typst", "width",
@@ -124,9 +125,10 @@ impl DocGen {
 
     fn atom(&mut self) -> String {
         match self.shape.below(12) {
-            0 | 1 => format!("{}", self.shape.below(1000)),
-            2 => format!("{}.{}", self.shape.below(100), self.shape.below(10)),
-            3 | 4 => format!("{}{}", self.shape.below(200), self.shape.pick(UNITS)),
+            // literal *values* come from the deco stream: twins have the same tree, other values
+            0 | 1 => format!("{}", self.deco.below(1000)),
+            2 => format!("{}.{}", self.deco.below(100), self.deco.below(10)),
+            3 | 4 => format!("{}{}", self.deco.below(200), self.shape.pick(UNITS)),
             5 | 6 => {
                 let w = self.words(1, 4);
                 let id = self.ident();
@@ -474,8 +476,9 @@ impl DocGen {
     }
 
     fn table(&mut self) -> String {
-        let cols = self.shape.range(1, 4);
-        let cells = self.shape.range(0, 9);
+        // the column count is a value, not shape: twins get tables that differ only in `columns:`
+        let cols = self.deco.range(1, 5);
+        let cells = self.shape.range(0, 12);
         let mut items = vec![format!("columns: {}", cols)];
         for _ in 0..cells {
             let w = self.words(1, 2);
@@ -518,7 +521,19 @@ impl DocGen {
     /// one top-level markup item (no trailing newline)
     pub fn item(&mut self) -> String {
         let depth = self.shape.range(1, 3);
-        match self.shape.weighted(&[8, 5, 6, 5, 3, 3, 4, 3, 3, 2, 2, 2, 2, 2, 2, 2, 1]) {
+        match self.shape.weighted(&[8, 5, 6, 5, 3, 3, 4, 3, 3, 2, 2, 2, 4, 2, 2, 2, 1, 3]) {
+            17 => {
+                // a dot chain whose head is long enough to sit between the chain-width thresholds
+                // of different page widths
+                let id = self.ident();
+                let mut chain = format!("{}{}", self.word(), self.ident());
+                for _ in 0..self.shape.range(2, 5) {
+                    let f = self.shape.pick(FIELDS).to_string();
+                    chain = format!("{}.{}{}", chain, f, self.deco.below(100));
+                }
+                let a = self.args(1, 4);
+                format!("#let {} = {}{}", id, chain, a)
+            }
             16 => {
                 let id = self.ident();
                 let levels = self.shape.range(8, 40);
